@@ -10,7 +10,7 @@
    both sides (ip u v = <u,v> with A, and ip u v = <v,u> with A^T). *)
 From Coq Require Import List Arith Lia Bool Ring Field.
 From OV Require Import Base.Panic Base.Arith Model.Vector Model.Iter Proofs.Iter Proofs.IterField
-  Proofs.SparseMul Proofs.IterSparse Proofs.IterSparseBreakdown Proofs.IterCGVec Proofs.IterCGDim Proofs.IterCG.
+  Proofs.SparseMul Proofs.IterSparse Proofs.IterSparseBreakdown Proofs.IterSparseErr Proofs.IterCGVec Proofs.IterCGDim Proofs.IterCG.
 Import ListNotations.
 
 Section Half.
@@ -365,6 +365,153 @@ Proof.
     destruct Ha' as (_ & h2a' & _). destruct Hb' as (_ & h2b' & _).
     apply bo_against; [exact h2a' | exact h2b'].
   - cbn [combine tl]. constructor; [cbn [fst snd]; now rewrite <- Hrho2eq|]. exact NZ.
+Qed.
+
+(* ---- the body of the model is such a step ---- *)
+Definition bi_lens (s : @bicg_st A) : Prop :=
+  length (bi_x s) = n /\ length (bi_r s) = n /\ length (bi_rr s) = n /\ length (bi_z s) = n /\
+  length (bi_zz s) = n /\ length (bi_p s) = n /\ length (bi_pp s) = n /\ bi_z s = bi_r s.
+
+Lemma bicg_body_step itol tol bnrm i s out : itol = 1 \/ itol = 2 -> bi_lens s ->
+  bicg_body mulA mulAT n itol tol bnrm i s = Ok out ->
+  exists x' r' rr' p pp rho,
+    bicg_step i (bi_x s) (bi_r s) (bi_rr s) (bi_p s) (bi_pp s) (bi_rho2 s) x' r' rr' p pp rho /\
+    ((exists g, out = Return (IOk i, x', g)) \/
+     (exists zz' err X, length zz' = n /\ out = Continue (mkBI x' r' rr' r' zz' p pp rho err X))).
+Proof.
+  intros Hit (Hx & Hr & Hrr & Hz & Hzz & Hp & Hpp & Ez) H.
+  unfold bicg_body in H. rewrite Ez in H.
+  rewrite ident_pre_ok in H by auto. cbn [bind] in H.
+  rewrite dot_ok in H by lia. cbn [bind] in H.
+  set (rho := dot_raw (bi_r s) (bi_rr s)) in *.
+  assert (Hdir : exists p pp, length p = n /\ length pp = n /\
+            (if i =? 1 then Ok (bi_r s, bi_rr s)
+             else let* beta := div rho (bi_rho2 s) in
+                  let* p := vadd (bi_r s) (vscale (bi_p s) beta) in
+                  let* pp := vadd (bi_rr s) (vscale (bi_pp s) beta) in Ok (p, pp)) = Ok (p, pp) /\
+            (if i =? 1 then p = bi_r s /\ pp = bi_rr s
+             else exists beta, div rho (bi_rho2 s) = Ok beta /\ p = zipw add (bi_r s) (vscale (bi_p s) beta) /\
+                               pp = zipw add (bi_rr s) (vscale (bi_pp s) beta))).
+  { destruct (i =? 1).
+    - exists (bi_r s), (bi_rr s). auto.
+    - apply bind_ok in H as ((p0 & pp0) & Eppp & _).
+      apply bind_ok in Eppp as (beta & Ebeta & Eppp).
+      exists (zipw add (bi_r s) (vscale (bi_p s) beta)), (zipw add (bi_rr s) (vscale (bi_pp s) beta)).
+      split; [now apply zs_len2|]. split; [now apply zs_len2|]. split.
+      + rewrite Ebeta. cbn [bind]. unfold vadd. rewrite !vscale_length, Hr, Hrr, Hp, Hpp, Nat.eqb_refl. reflexivity.
+      + exists beta. auto. }
+  destruct Hdir as (p & pp & Hpl & Hppl & Eppp & Hdirspec). rewrite Eppp in H. cbn [bind] in H.
+  apply bind_ok in H as (z0 & Ez0 & H). assert (Hz0 : length z0 = n) by (eapply mulA_len2; eauto).
+  rewrite dot_ok in H by lia. cbn [bind] in H.
+  apply bind_ok in H as (alpha & Ea & H). apply bind_ok in H as (zz' & Ezz' & H).
+  assert (Hzz' : length zz' = n) by (eapply mulAT_len2; eauto).
+  unfold vadd, vsub in H. rewrite !vscale_length, Hx, Hr, Hrr, Hpl, Hz0, Hzz', Nat.eqb_refl in H. cbn [bind] in H.
+  rewrite ident_pre_ok in H by (auto; now apply zs_len2). cbn [bind] in H.
+  apply bind_ok in H as (err1 & _ & H). apply bind_ok in H as (err & _ & H). cbv zeta in H.
+  exists (zipw add (bi_x s) (vscale p alpha)), (zipw sub (bi_r s) (vscale z0 alpha)),
+         (zipw sub (bi_rr s) (vscale zz' alpha)), p, pp, rho.
+  split.
+  - split; [reflexivity|]. split; [exact Hdirspec|]. exists z0, zz', alpha. repeat split; auto.
+  - destruct (leb err tol); injection H as <-.
+    + left. eauto.
+    + right. do 3 eexists. split; [exact Hzz' | reflexivity].
+Qed.
+
+(* ---- the bound ---- *)
+Lemma combine_lens (R RR : list (list F)) : Forall lenv R -> Forall lenv RR ->
+  Forall (fun ab : list F * list F => length (fst ab) = n /\ length (snd ab) = n) (combine R RR).
+Proof.
+  intros H1 H2. apply Forall_forall. intros [u u'] Hin. rewrite Forall_forall in H1, H2. cbn [fst snd]. split.
+  - apply H1. eapply in_combine_l; eauto.
+  - apply H2. eapply in_combine_r; eauto.
+Qed.
+
+Lemma Forall_tl {X} (P : X -> Prop) (l : list X) : Forall P l -> Forall P (tl l).
+Proof. destruct l; cbn; auto. intros H. exact (Forall_inv_tail H). Qed.
+Lemma FOP_tl {X} (Q : X -> X -> Prop) (l : list X) : ForallOrdPairs Q l -> ForallOrdPairs Q (tl l).
+Proof. destruct l; cbn; auto. intros H. apply FOP_cons_inv in H. tauto. Qed.
+
+(* at every state: all history pairs but the newest are bi-orthogonal with nonzero pairings, hence at most n *)
+Lemma biI_bound x r rr p pp rho2 R RR P PP : biI x r rr p pp rho2 R RR P PP -> length R <= n + 1.
+Proof.
+  intros (_ & _ & _ & HlR & HlRR & _ & _ & HlenR & _ & BO & NZ).
+  assert (Hb : length (tl (combine R RR)) <= n).
+  { apply (biorth_bound FL n); auto.
+    - apply Forall_tl. now apply combine_lens.
+    - apply FOP_tl. apply FOP_cons_inv in BO. tauto. }
+  assert (Hc : length (combine R RR) = length R) by (rewrite combine_length; lia).
+  destruct (combine R RR) as [|a l]; cbn [tl length] in *; lia.
+Qed.
+
+(* ... and all of them when the next iteration has divided by rho2 *)
+Lemma biI_bound_nz x r rr p pp rho2 R RR P PP : biI x r rr p pp rho2 R RR P PP -> rho2 <> zero -> length R <= n.
+Proof.
+  intros (_ & _ & _ & HlR & HlRR & _ & _ & HlenR &
+          (zr & zrr & R' & RR' & P' & PP' & q & qq & alpha & -> & -> & _ & _ & _ & _ & _ & _ & _ & Hrho2 & _) & BO & NZ) Hnz.
+  assert (Hb : length (combine (zr :: R') (zrr :: RR')) <= n).
+  { apply (biorth_bound FL n).
+    - now apply combine_lens.
+    - apply FOP_cons_inv in BO. tauto.
+    - cbn [combine tl] in *. constructor; [cbn [fst snd]; now rewrite <- Hrho2 | exact NZ]. }
+  rewrite combine_length in Hb. lia.
+Qed.
+
+(* in exact arithmetic solve_bicg either panics (a division by zero: the breakdown the code has no test for) or answers
+   Ok within n+1 iterations: it can never exhaust a budget >= n+2 *)
+Theorem bicg_breakdown_or_terminates itol (b x0 : list F) max tol res x g :
+  n + 2 <= max ->
+  solve_bicg mulA mulAT n n itol b x0 max tol = Ok (res, x, g) ->
+  exists k, res = IOk k /\ k <= n + 1.
+Proof.
+  intros Hmax H. unfold solve_bicg in H.
+  apply bind_ok in H as (((r0 & bnrm) & z) & Estart & H).
+  pose proof (bicg_start_z_is_r mulA n n itol b x0 r0 bnrm z Estart) as ->.
+  pose proof Estart as E2. apply bicg_start_Ok in E2 as (Hit & _).
+  assert (Hlens : length x0 = n /\ length r0 = n).
+  { unfold bicg_start in Estart. apply bind_ok in Estart as (u & Hg & E). apply guards_Ok in Hg as (Hb & _ & Hx).
+    apply bind_ok in E as (ax & Eax & E). apply bind_ok in E as (r' & Er & E).
+    apply bind_ok in E as (bz & _ & E). injection E as <- _ _.
+    apply vsub_Ok in Er as (Hl & ->). split; [lia|]. rewrite zipw_length; lia. }
+  destruct Hlens as (Hx0 & Hr0).
+  apply bind_ok in H as (err0 & _ & H). destruct (leb err0 tol).
+  { injection H as <- _ _. exists 0. split; [reflexivity | lia]. }
+  set (bd := bicg_body mulA mulAT n itol tol (nz bnrm)) in *.
+  set (s0 := mkBI x0 r0 r0 r0 (zeros n) (zeros n) (zeros n) one err0 (trace0 x0 err0 tol)) in *.
+  assert (Hl0 : bi_lens s0).
+  { unfold bi_lens, s0; cbn. pose proof (@zeros_length A n). repeat split; auto. }
+  set (Inv := fun (i : nat) (s : @bicg_st A) => bi_lens s /\
+         ((i = 1 /\ s = s0) \/
+          (2 <= i /\ exists R RR P PP, biI (bi_x s) (bi_r s) (bi_rr s) (bi_p s) (bi_pp s) (bi_rho2 s) R RR P PP /\
+                                       length R = i - 1))).
+  assert (Hstep : forall i s s', Inv i s -> bd i s = Ok (Continue s') -> Inv (S i) s').
+  { intros i s s' (Hls & Hcase) Eb.
+    destruct (bicg_body_step itol tol (nz bnrm) i s _ Hit Hls Eb)
+      as (x' & r' & rr' & p & pp & rho & Hstp & [(g' & Eo)|(zz' & err & X & Hzz' & Eo)]); [discriminate Eo|].
+    injection Eo as ->. cbn [bi_x bi_r bi_rr bi_p bi_pp bi_rho2].
+    assert (HI : exists R RR P PP, biI x' r' rr' p pp rho R RR P PP /\ length R = S i - 1).
+    { destruct Hcase as [(-> & ->)|(Hi & R & RR & P & PP & HI & HlR)].
+      - exists [r0], [r0], [p], [pp]. split; [|reflexivity].
+        apply (bi_first_step x0 r0 x' r' rr' p pp rho (zeros n) (zeros n) one Hx0 Hr0). exact Hstp.
+      - exists (bi_r s :: R), (bi_rr s :: RR), (p :: P), (pp :: PP). split; [|cbn [length]; lia].
+        apply (bi_next_step i (bi_x s) (bi_r s) (bi_rr s) (bi_p s) (bi_pp s) (bi_rho2 s) R RR P PP); auto.
+        apply Nat.eqb_neq. lia. }
+    destruct HI as (R & RR & P & PP & HI & HlR).
+    split.
+    - destruct HI as (Hx' & Hr' & Hrr' & _ & _ & HlP & HlPP & _ & (zr & zrr & R' & RR' & P' & PP' & _ & _ & _ & _ & _ & -> & -> & _) & _).
+      unfold bi_lens; cbn. repeat split; auto; [exact (Forall_inv HlP) | exact (Forall_inv HlPP)].
+    - right. split; [lia|]. exists R, RR, P, PP. auto. }
+  assert (H0 : Inv 1 s0) by (split; [exact Hl0 | left; auto]).
+  destruct (iloop_char bd (bicg_final itol) Inv Hstep max 1 s0 _ H0 H)
+    as [(i & s & Hi & (Hls & Hcase) & Eb)|(s & (Hls & Hcase) & E)].
+  - destruct (bicg_body_step itol tol (nz bnrm) i s _ Hit Hls Eb)
+      as (x' & r' & rr' & p & pp & rho & Hstp & [(g' & Eo)|(zz' & err & X & Hzz' & Eo)]); [|discriminate Eo].
+    injection Eo as -> _ _. exists i. split; [reflexivity|].
+    destruct Hcase as [(-> & _)|(Hi2 & R & RR & P & PP & HI & HlR)]; [lia|].
+    destruct Hstp as (_ & Hdir & _). replace (i =? 1) with false in Hdir by (symmetry; apply Nat.eqb_neq; lia).
+    destruct Hdir as (beta & Ebeta & _). apply (div_Ok_inv FL) in Ebeta as (Hnz & _).
+    pose proof (biI_bound_nz _ _ _ _ _ _ _ _ _ _ HI Hnz). lia.
+  - exfalso. destruct Hcase as [(Hi & _)|(_ & R & RR & P & PP & HI & HlR)]; [lia|].
+    pose proof (biI_bound _ _ _ _ _ _ _ _ _ _ HI). lia.
 Qed.
 
 End BiCGRun.
